@@ -68,26 +68,27 @@ type v2Intn struct{ r *mrand2.Rand }
 
 func (s v2Intn) next(n int) int { return s.r.IntN(n) }
 
-// v1Read mirrors the shipped byte-to-character mapping (rejection sampling over bytes) on top of math/rand's Read:
-// the natural regression of the repaired generator to a guessable seed.
+// v1Read mirrors the shipped byte-to-character mapping (2n bytes read per identifier of n characters, rejection
+// sampling) on top of math/rand's Read: the natural regression of the repaired generator to a guessable seed.
 type v1Read struct {
-	r   *mrand.Rand
-	buf []byte
+	r *mrand.Rand
 }
 
-func (s *v1Read) next(n int) int {
-	limit := 256 - 256%n
-	for {
-		if len(s.buf) == 0 {
-			s.buf = make([]byte, 128)
-			_, _ = s.r.Read(s.buf)
-		}
-		v := int(s.buf[0])
-		s.buf = s.buf[1:]
-		if v < limit {
-			return v % n
+func (s *v1Read) next(n int) int { panic("v1Read generates whole strings") }
+
+func (s *v1Read) str(n int) string {
+	limit := 256 - 256%len(c06Charset)
+	b := make([]byte, 0, n)
+	buf := make([]byte, 2*n)
+	for len(b) < n {
+		_, _ = s.r.Read(buf)
+		for _, v := range buf {
+			if int(v) < limit && len(b) < n {
+				b = append(b, c06Charset[int(v)%len(c06Charset)])
+			}
 		}
 	}
+	return string(b)
 }
 
 type family struct {
@@ -104,6 +105,9 @@ var c06Families = []family{
 }
 
 func gen(s intSrc, n int) string {
+	if w, ok := s.(interface{ str(int) string }); ok {
+		return w.str(n)
+	}
 	b := make([]byte, n)
 	for i := range b {
 		b[i] = c06Charset[s.next(len(c06Charset))]
